@@ -947,3 +947,36 @@ func (o *Create) Content(s *State) string {
 	}
 	return t.CSV()
 }
+
+// ---- a statement executed inside a nested block -----------------------------------------------------
+
+// Nested runs Inner at the bottom of a child block (IF, WHILE, or the body of a user-defined function declared
+// and called inside an IF block so that nothing it declares outlives the step). The documented effect is the
+// effect of Inner: a data-changing statement acts on the table wherever the table was declared.
+type Nested struct {
+	Inner Op
+	Kind  string // "if" | "while" | "func"
+}
+
+func (n *Nested) ID() string             { return n.Inner.ID() + "@" + n.Kind }
+func (n *Nested) Class() string          { return n.Inner.Class() }
+func (n *Nested) Apply(s *State) Outcome { return n.Inner.Apply(s) }
+func (n *Nested) Tables() []string       { return n.Inner.Tables() }
+func (n *Nested) SQL() string {
+	in := strings.TrimRight(strings.TrimSpace(n.Inner.SQL()), ";")
+	switch n.Kind {
+	case "while":
+		return "IF TRUE THEN VAR @nw := 0; WHILE @nw < 1 DO @nw := @nw + 1; " + in + "; END WHILE; END IF;"
+	case "func":
+		return "IF TRUE THEN DECLARE nf FUNCTION () AS BEGIN " + in + "; RETURN 1; END; VAR @nr := nf(); END IF;"
+	}
+	return "IF TRUE THEN " + in + "; END IF;"
+}
+
+// Unwrap returns the statement itself for a Nested one.
+func Unwrap(o Op) Op {
+	if n, ok := o.(*Nested); ok {
+		return n.Inner
+	}
+	return o
+}
